@@ -180,6 +180,9 @@ def main(argv=None) -> int:
               f"corpus: {selftest.get('corpus', {}).get('seeded_fired', 0)}/{selftest.get('corpus', {}).get('seeded_total', 0)} seeded changes reported, "
               f"{selftest.get('corpus', {}).get('benign_silent', 0)}/{selftest.get('corpus', {}).get('benign_total', 0)} refactorings silent"
               f"{'' if selftest.get('tree_is_reference') else ' (tree differs from the reference: failures are inconclusive)'}")
+        if selftest.get("corpus", {}).get("skipped"):
+            print(f"  self-test: corpus patches not counted (they do not apply to this tree, are filed under another property, or are documented known misses of "
+                  f"the static family - DESIGN 10.6): {' '.join(map(str, selftest['corpus']['skipped']))}")
         if selftest.get("errors"):
             hard = selftest.get("tree_is_reference") and not new
             for e in selftest["errors"][:8]:
